@@ -112,5 +112,24 @@ pub fn generated_groups(quick: bool) -> Vec<(String, Vec<String>)> {
         }
         groups.push((format!("generated jump layouts, loop escapes, jumps into blocks and across scopes, fault x container x handler programs, handler histories of depth <= {}", depth), v));
     }
+    // history independence material: call programs after each disturbing prefix (vcore::disturb) — for C15 these are
+    // programs in which a trapped error interrupts a call at an awkward moment and more calls follow
+    {
+        let mut v = vec![];
+        for p in vcore::disturb::PREFIXES {
+            v.push(vcore::disturb::prefix_alone(p));
+        }
+        let args = vcore::gen03::arg_programs();
+        let step = if quick { 23 } else { 5 };
+        for c in args.iter().filter(|c| !c.expect_reject).step_by(step) {
+            let text = print_default(&c.prog).text;
+            for p in vcore::disturb::PREFIXES {
+                if let Some(t) = vcore::disturb::combine(p, &text) {
+                    v.push(t);
+                }
+            }
+        }
+        groups.push((format!("disturbing prefixes (a run-time error trapped while by-reference values wait, in the middle of an argument list, in a PRINT item, ...) alone and followed by every {}-th call program", step), v));
+    }
     groups
 }
